@@ -63,7 +63,11 @@ Sliced(c) ==
          ELSE IF ~Comparable(us[y].rows, c.stmt.order) THEN TRUE
          ELSE ValidSlice(ms[x].rows, us[y].rows, c.stmt.order, c.stmt.lim.s, c.stmt.lim.n))
 
-DocsOK(c) == \A x \in 1..Len(c.store) : c.store[x].doc.t = "unspec" \/ RenderJson(c.store[x].doc) = c.store[x].v
+\* the annotated document is the stored text, white space around it aside
+RECURSIVE TrimL(_), TrimR(_)
+TrimL(t) == IF Len(t) > 0 /\ t[1] \in {32, 9, 10, 13} THEN TrimL(Tail(t)) ELSE t
+TrimR(t) == IF Len(t) > 0 /\ t[Len(t)] \in {32, 9, 10, 13} THEN TrimR(SubSeq(t, 1, Len(t) - 1)) ELSE t
+DocsOK(c) == \A x \in 1..Len(c.store) : c.store[x].doc.t = "unspec" \/ RenderJson(c.store[x].doc) = TrimR(TrimL(c.store[x].v))
 
 Verdict(c) ==
   LET main == Runs(c, "main")
